@@ -14,12 +14,15 @@ Oracles (DESIGN.md section 4, C07):
   O3 a failing run creates/modifies nothing;
   O4 a succeeding run's outputs equal those of the same bytes in a pristine,
      empty output location, and pre-existing unrelated files are untouched;
-  O5 the run ends within a simulated-step budget (parser-element attempts).
+  O5 the run ends within a simulated-step budget (parser-element attempts);
+  O6 accepted  => what was understood is used: every non-templated class and every enumeration in the
+     tree(s) the tool built is named somewhere in the outputs the run wrote ("never half-used").
 """
 import errno
 import hashlib
 import io
 import os
+import re
 import runpy
 import sys
 
@@ -57,7 +60,7 @@ MISSPELL = {"class": ["clas", "Class", "klass"], "namespace": ["namespce", "Name
 PROBES = ["accepted_after_corruption", "rejected_after_corruption", "multi_file_matlab",
           "file_ends_in_line_comment_no_newline", "prior_outputs_present", "read_error_injected",
           "eio_mid_read", "truncated_inside_declaration", "must_reject_case", "valid_input_accepted", "crlf_line_endings",
-          "o4_reference_compared", "nonascii_input", "failed_after_parsing"]
+          "o4_reference_compared", "nonascii_input", "failed_after_parsing", "declared_names_sought_in_outputs"]
 
 
 def batches(tier):
@@ -613,6 +616,18 @@ def run_case(tape, batch):
                                        "invented %s; entry=%s corruptions=%s; input tail=%r" %
                                        (miss[:8], extra[:8], case["entry"], case["corruptions"],
                                         " | ".join(tx[-160:] for tx in parsed_files))})
+            # O6: every class with a body and every enumeration the tool understood shows up in what it wrote
+            wrote = {pth: d for pth, d in w.files.items() if before_f.get(pth) != d}
+            haystack = "\n".join(wrote) + "\n" + "\n".join(d.decode("utf-8", "replace") for d in wrote.values())
+            words = set(re.findall(r"[A-Za-z_][A-Za-z_0-9]*", haystack))
+            absent = [n for n in _declared_names(L.scan(unparsed)[0]) if n not in words]
+            w.probe("declared_names_sought_in_outputs")
+            if absent and wrote:
+                viol.append({"inv": "O6", "sig": "O6:%s:understood-but-unused" % ent,
+                             "detail": "accepted, and the tree contains %s, but no output names them (a declaration "
+                                       "was dropped between parsing and generation); entry=%s corruptions=%s; "
+                                       "inputs=%r" % (absent[:6], case["entry"], case["corruptions"],
+                                                      " | ".join(tx[-200:] for tx in parsed_files))})
         # O4
         prior_f, _ = _prior_files(case) if case["prior"] else ({}, [])
         for p, d in prior_f.items():
@@ -683,6 +698,38 @@ def run_case(tape, batch):
 
 
 QUALS = {"const", "*", "@", "&"}
+
+
+def _declared_names(tokens):
+    """names of the classes that have a body and are not class templates, and of the enumerations, in a token
+    stream (an independent reading of the text the tree renders to)"""
+    names = []
+    n = len(tokens)
+    for i, t in enumerate(tokens):
+        if t == "class" and i + 1 < n and (i == 0 or tokens[i - 1] != "enum"):
+            nm = tokens[i + 1]
+            if not nm.replace("_", "a").isalnum() or nm[0].isdigit():
+                continue
+            # a body follows (possibly after `: Parent`), before any `;`
+            j = i + 2
+            while j < n and tokens[j] not in ("{", ";", "}", ")", "("):
+                j += 1
+            if j >= n or tokens[j] != "{":
+                continue
+            # class templates are instantiated under other names (or not at all)
+            k = i - 1
+            if k >= 0 and tokens[k] == "virtual":
+                k -= 1
+            if k >= 0 and tokens[k] == ">":
+                continue
+            names.append(nm)
+        elif t == "enum" and i + 1 < n:
+            j = i + 1
+            if tokens[j] in ("class", "struct"):
+                j += 1
+            if j + 1 < n and tokens[j + 1] == "{" and tokens[j].replace("_", "a").isalnum():
+                names.append(tokens[j])
+    return names
 
 
 def _strip_f7_positions(tokens):
